@@ -211,6 +211,22 @@ extra7 = {
 for k, v in extra7.items():
     lvl, tech, text, note, ref = claims[k]
     claims[k] = (lvl, tech, text + v, note, ref)
+# round-8 additions
+extra8 = {
+ 'C01': ' Every user of Allow+Promise in the module resolves the promise exactly once on every exit incl. the panic exits of the calls in between (R12).',
+ 'C02': ' The create-once rules of syncx.ResourceManager (C07), on which ShedderGroup is built, run under C02 (R12).',
+ 'C03': ' The breaker entry-point rules (C01) run under C03: what the limiter takes for an outage is the redis breaker\'s answer (R9).',
+ 'C06': ' A query function handed to a sqlc.CachedConn method is invoked only inside a literal handed to the cache (R15); the timing-wheel rules (C12) of the invalidation retries run under C06 (R16).',
+ 'C07': ' A literal handed to SingleFlight.Do/DoEx makes no call while holding a mutex (R12); the callers of the cache\'s flight keep the query inside it (R11).',
+ 'C09': ' The adapters\' pass-through rule (C08.R10: ParsePath hands the bound variables on unchanged) runs under C09 (R13).',
+ 'C10': ' A user panic waiting when the output case wins the final select is re-raised (R11; found and fixed F45).',
+ 'C12': ' No closure started from a loop of core/collection captures the loop variable (R11).',
+ 'C16': ' The timing-wheel (C12) and single-flight (C07) rules run under C16: the cache\'s expiry and Take rest on them (R10, R11).',
+ 'C20': ' A child that formats to nothing takes no line (R18; found and fixed F44).',
+}
+for k, v in extra8.items():
+    lvl, tech, text, note, ref = claims[k]
+    claims[k] = (lvl, tech, text + v, note, ref)
 not_built_reason = 'static rules designed (DESIGN.md section 3) but not built yet in this revision'
 
 checks, na = [], []
